@@ -28,6 +28,7 @@ ANCHORED = ["Cast3M", "Secant", "IronsTuck", "Steffensen", "UAnderson", "FAnders
 SRC = {"Cast3M": "CastemAccelerationAlgorithm", "Secant": "SecantAccelerationAlgorithm",
        "IronsTuck": "IronsTuckAccelerationAlgorithm", "Steffensen": "SteffensenAccelerationAlgorithm",
        "UAnderson": "UAndersonAccelerationAlgorithm", "FAnderson": "FAndersonAccelerationAlgorithm"}
+SITE_ACCUMULATED = "mtest/src/GenericSolver.cxx:execute:end-tolerance:accumulated-rounding-beyond-100ulp"
 #: first fixed-point call (1-based) from which the theorems guarantee that u1 is unchanged
 FP_FROM = {"Secant": 1, "IronsTuck": 1, "Steffensen": 3, "Cast3M": 3}
 
@@ -371,11 +372,19 @@ def run(ck):
                     disagreements += 1
                     ti = p["times"][p["times"].index(T) - 1]
                     sig = c48.loop_signature(per.get(T, []), ti, T, o["dyn"], -1.0)
+                    atts_T = per.get(T, [])
+                    reached = (atts_T[-1][0] + atts_T[-1][1]) if atts_T else T
+                    if not sig and abs(reached - T) > 2 * c48.tolmag(ti, T):
+                        # the state printed for T is the state at another time: the rounding errors accumulated by
+                        # `t += dt` over the sub-steps (systematic under a directed rounding mode) exceed the end
+                        # tolerance of the time loop (100 ulp of the times), which then makes one more sub-step
+                        sig = SITE_ACCUMULATED
                     site = ("sub-stepping:" + sig) if sig else "mtest/src/GenericSolver.cxx:options:" + label.split("/")[0]
                     report(site, True,
                            "at the requested time %r the %s component %d is %r with options %s and %r with the baseline options "
                            "(tolerance %.3g)%s" % (T, worst[0], worst[1], worst[2], label, worst[3], worst[4],
-                                                   "; the time loop stopped at another time (see property C48)" if sig else ""),
+                                                   "; the time loop stopped at t=%r instead of %r after %d attempts (see property C48)"
+                                                   % (reached, T, len(atts_T)) if sig else ""),
                            {"request": line, "baseline_request": runs[0][1], "options": o, "attempts": per.get(T, [])[-6:],
                             "implementation": pretty(a)[:3000], "baseline": pretty(runs[0][2])[:3000]})
                     break
